@@ -158,12 +158,14 @@ func (d Degree) Semitone() (Semitone, bool) {
 		return 0, false
 	}
 
+	// strip all octaves at once: recursing once per octave overflows the stack for large numbers
+	octaves := (d.Value - 2) / (perfect8.Value - 1)
 	e := Degree{
-		Value: d.Value - perfect8.Value + 1, // perfect1 is identical
+		Value: d.Value - octaves*(perfect8.Value-1), // 2..8; perfect1 is identical
 		Name:  d.Name,
 	}
 	if v, ok := e.Semitone(); ok {
-		return v + degreeSemitoneMap[perfect8], true
+		return v + Semitone(octaves)*degreeSemitoneMap[perfect8], true
 	}
 	return 0, false
 }
